@@ -5,5 +5,5 @@ CONSTANTS
   Parts = 1
   Known = {}
   Tags <- TagsFromFile
-INVARIANT DemoAsIs
+INVARIANT RoundTripAsIs
 CHECK_DEADLOCK FALSE
